@@ -17,6 +17,8 @@ class Ty:
 
     # ---- WGSL text
     def wgsl(self):
+        if getattr(self, "alias", None):
+            return self.alias          # spelled through a WGSL `alias` declaration (same type, same layout, same shape)
         k = self.kind
         if k == "scalar":
             return self.s
@@ -115,9 +117,11 @@ FIELD_NAMES = ["position", "normal", "uv", "color", "weights", "indices", "m", "
 
 class Gen:
     def __init__(self, rng, allow_f64=False, allow_rts=True, allow_atomic=True, square_mats_only=False, scalar_kinds=None,
-                 compat16=False, big_arrays=False):
+                 compat16=False, big_arrays=False, huge_arrays=False):
         self.rng = rng
         self.big_arrays = big_arrays
+        self.huge_arrays = huge_arrays
+        self.aliases = None            # dict wgsl type text -> alias name, when alias declarations are generated
         self.compat16 = compat16      # only 16-byte-multiple leafs: the Rust layout equals the WGSL layout
         self.structs = []
         self.allow_f64 = allow_f64
@@ -127,6 +131,15 @@ class Gen:
         self.scalars = scalar_kinds or ["f32", "i32", "u32"]
 
     def leaf(self):
+        t = self._leaf()
+        if self.aliases is not None and t.kind in ("scalar", "vec", "mat") and self.rng.random() < 0.25:
+            key = t.wgsl()
+            if key not in self.aliases:
+                self.aliases[key] = "%s%d" % (self.rng.choice(["Alias", "Color", "Position", "real_t", "Mat"]), len(self.aliases))
+            t.alias = self.aliases[key]
+        return t
+
+    def _leaf(self):
         r = self.rng
         k = r.random()
         if self.compat16:
@@ -157,6 +170,8 @@ class Gen:
             n = r.choice([1, 2, 3, 4, 5, 8])
             if self.big_arrays and r.random() < 0.2:
                 n = r.choice([32, 33, 40, 64])      # serde / bytemuck stop at 32 elements: the derive lists must not depend on it
+            elif self.huge_arrays and r.random() < 0.15:
+                n = r.choice([752, 1000, 4096, 65536, 62600])      # sizes / offsets of five and more digits
             return Ty("array", elem=base, n=n)
         return self.leaf()
 
@@ -196,7 +211,10 @@ def program(rng, **kw):
     structs, vertex input structs, inter-stage structs, fragment outputs. Returns dict with wgsl + truth."""
     bias = kw.pop("roles_bias", False)      # make multi-role structs (result + host, vertex + host, ...) likely
     allow_bool = kw.pop("allow_bool", False)  # structs with bool / vecN<bool> members (private / workgroup variables only)
+    use_alias = kw.pop("aliases", True)
     g = Gen(rng, **kw)
+    if use_alias and rng.random() < 0.35:
+        g.aliases = {}
     lines, decls = [], []
     roles = {}   # struct name -> set of roles
     # host-side structs
@@ -272,6 +290,22 @@ def program(rng, **kw):
         globals_.append(("storage_ro" if use_rts else rng.choice(["uniform", "storage_ro"]), "g%d" % b, tw, b))
         used_by_global.append(tw)
         b += 1
+    # a chain of nested structs up to the WGSL limit on composite nesting depth, bound once directly and once through a
+    # runtime-sized / fixed array; sometimes a later variable enters the chain in the middle first
+    if rng.random() < (0.12 if not g.compat16 else 0.0):
+        depth = rng.choice([13, 14, 15])
+        chain = [Ty("struct", name="Deep1", members=[("v", Ty("vec", n=4, s="f32"))], has_rts=False)]
+        for i in range(2, depth + 1):
+            chain.append(Ty("struct", name="Deep%d" % i, members=[("inner", chain[-1]), ("k%d" % i, Ty("scalar", s="f32"))], has_rts=False))
+        grid_structs += chain
+        mid = chain[rng.randrange(1, depth - 1)]
+        order_ = [(chain[-1], "deep_top"), (mid, "deep_mid")]
+        if rng.random() < 0.5:
+            order_.reverse()
+        for t_, nm in order_:
+            globals_.append(("storage_ro", nm, t_, b))
+            used_by_global.append(t_)
+            b += 1
     # bool members: only possible in private / workgroup variables
     if allow_bool and rng.random() < 0.5:
         ms = [("enabled", Ty("scalar", s="bool")), ("level", Ty("scalar", s="u32"))]
@@ -351,15 +385,23 @@ def program(rng, **kw):
     if local:
         extra.append("struct Local { t: f32, u: u32 }")
 
+    if rng.random() < 0.3:
+        extra.append("override struct_scale: f32 = 1.0;\n@id(7) override struct_count: u32;")
     # render
+    alias_lines_at = len(lines)
     for s in host_structs + ([rts_struct] if rts_struct else []) + grid_structs:
         lines.append(g.render_struct(s))
     lines += io_lines + extra
+    if g.aliases:
+        for txt, nm in g.aliases.items():
+            lines.insert(alias_lines_at, "alias %s = %s;" % (nm, txt))
     for sp, n, t, bi in globals_:
         q = {"uniform": "@group(0) @binding(%d) var<uniform> " % bi, "storage_ro": "@group(0) @binding(%d) var<storage, read> " % bi,
              "storage_rw": "@group(0) @binding(%d) var<storage, read_write> " % bi, "private": "var<private> ", "workgroup": "var<workgroup> "}[sp]
         lines.append("%s%s: %s;" % (q, n, t.wgsl()))
     body_local = "var l: Local; l.t = 1.0;" if local else ""
+    if vin and rng.random() < 0.4:
+        lines.append("fn pass_through(v: %s) -> %s { return v; }" % (vin[0].name, vin[0].name))
     entries = []
     if nentry >= 1:
         params = ["in%d: %s" % (i, s.name) for i, s in enumerate(vin)]
